@@ -22,7 +22,7 @@ pub fn decode(data: &[u8]) -> Option<Case> {
         0 => Validate::All,
         1 => Validate::Default,
         2 => Validate::Bits(u32::from_le_bytes([data[0], data.get(1).copied().unwrap_or(0), data.get(2).copied().unwrap_or(0), data.get(3).copied().unwrap_or(0)])),
-        _ => Validate::All,
+        _ => Validate::Bits(0),
     };
     Some(Case { text: text.to_string(), validate, label: "fuzz" })
 }
